@@ -108,7 +108,7 @@ macro_rules! wire_std {
                     Codec::BytesBox => Self::try_from(b.to_vec().into_boxed_slice()).map_err(e),
                     Codec::Bare => serde_bare::from_slice(b).map_err(e),
                     Codec::Json | Codec::JsonReader | Codec::JsonValue => json_dec(c, b),
-                    Codec::TreeBin | Codec::TreeBinLend | Codec::TreeHr | Codec::TreeBinMap => tree_dec(c, b),
+                    Codec::TreeBin | Codec::TreeBinLend | Codec::TreeHr | Codec::TreeBinMap | Codec::TreeBinHint | Codec::TreeBinPacked => tree_dec(c, b),
                     _ => Err("facade: codec not offered by this type".into()),
                 }
             }
@@ -122,7 +122,7 @@ macro_rules! wire_std {
                     }
                     Codec::Bare => serde_bare::to_vec(self).map_err(e),
                     Codec::Json | Codec::JsonReader | Codec::JsonValue => json_enc(c, self),
-                    Codec::TreeBin | Codec::TreeBinLend | Codec::TreeHr | Codec::TreeBinMap => tree_enc(c, self),
+                    Codec::TreeBin | Codec::TreeBinLend | Codec::TreeHr | Codec::TreeBinMap | Codec::TreeBinHint | Codec::TreeBinPacked => tree_enc(c, self),
                     _ => Err("facade: codec not offered by this type".into()),
                 }
             }
@@ -147,7 +147,7 @@ macro_rules! wire_scalar {
                     Codec::BytesBox => Self::try_from(b.to_vec().into_boxed_slice()).map_err(e),
                     Codec::Bare => serde_bare::from_slice(b).map_err(e),
                     Codec::Json | Codec::JsonReader | Codec::JsonValue => json_dec(c, b),
-                    Codec::TreeBin | Codec::TreeBinLend | Codec::TreeHr | Codec::TreeBinMap => tree_dec(c, b),
+                    Codec::TreeBin | Codec::TreeBinLend | Codec::TreeHr | Codec::TreeBinMap | Codec::TreeBinHint | Codec::TreeBinPacked => tree_dec(c, b),
                     Codec::Be => {
                         let a: [u8; 32] = b.try_into().map_err(|_| "bad length".to_string())?;
                         Option::from(Self::from_be_bytes(&a)).ok_or_else(|| "from_be_bytes: none".to_string())
@@ -164,7 +164,7 @@ macro_rules! wire_scalar {
                     Codec::BytesVec => Ok(Vec::from(self.clone())),
                     Codec::Bare => serde_bare::to_vec(self).map_err(e),
                     Codec::Json | Codec::JsonReader | Codec::JsonValue => json_enc(c, self),
-                    Codec::TreeBin | Codec::TreeBinLend | Codec::TreeHr | Codec::TreeBinMap => tree_enc(c, self),
+                    Codec::TreeBin | Codec::TreeBinLend | Codec::TreeHr | Codec::TreeBinMap | Codec::TreeBinHint | Codec::TreeBinPacked => tree_enc(c, self),
                     Codec::Be => Ok(self.to_be_bytes().to_vec()),
                     Codec::Le => Ok(self.to_le_bytes().to_vec()),
                 }
@@ -216,7 +216,7 @@ macro_rules! wire_plain {
                     Codec::BytesBox => Self::try_from(b.to_vec().into_boxed_slice()).map_err(e),
                     Codec::Bare => serde_bare::from_slice(b).map_err(e),
                     Codec::Json | Codec::JsonReader | Codec::JsonValue => json_dec(c, b),
-                    Codec::TreeBin | Codec::TreeBinLend | Codec::TreeHr | Codec::TreeBinMap => tree_dec(c, b),
+                    Codec::TreeBin | Codec::TreeBinLend | Codec::TreeHr | Codec::TreeBinMap | Codec::TreeBinHint | Codec::TreeBinPacked => tree_dec(c, b),
                     _ => Err("facade: codec not offered by this type".into()),
                 }
             }
@@ -226,7 +226,7 @@ macro_rules! wire_plain {
                     Codec::BytesVec => Ok(Vec::from(self.clone())),
                     Codec::Bare => serde_bare::to_vec(self).map_err(e),
                     Codec::Json | Codec::JsonReader | Codec::JsonValue => json_enc(c, self),
-                    Codec::TreeBin | Codec::TreeBinLend | Codec::TreeHr | Codec::TreeBinMap => tree_enc(c, self),
+                    Codec::TreeBin | Codec::TreeBinLend | Codec::TreeHr | Codec::TreeBinMap | Codec::TreeBinHint | Codec::TreeBinPacked => tree_enc(c, self),
                     _ => Err("facade: codec not offered by this type".into()),
                 }
             }
@@ -248,7 +248,7 @@ impl Wire for SecretKeyEnum {
             Codec::BytesBox => Self::try_from(b.to_vec().into_boxed_slice()).map_err(e),
             Codec::Bare => serde_bare::from_slice(b).map_err(e),
             Codec::Json | Codec::JsonReader | Codec::JsonValue => json_dec(c, b),
-                    Codec::TreeBin | Codec::TreeBinLend | Codec::TreeHr | Codec::TreeBinMap => tree_dec(c, b),
+                    Codec::TreeBin | Codec::TreeBinLend | Codec::TreeHr | Codec::TreeBinMap | Codec::TreeBinHint | Codec::TreeBinPacked => tree_dec(c, b),
             Codec::Be => Option::from(Self::from_be_bytes(b)).ok_or_else(|| "from_be_bytes: none".to_string()),
             Codec::Le => Option::from(Self::from_le_bytes(b)).ok_or_else(|| "from_le_bytes: none".to_string()),
         }
@@ -259,7 +259,7 @@ impl Wire for SecretKeyEnum {
             Codec::BytesVec => Ok(Vec::from(self.clone())),
             Codec::Bare => serde_bare::to_vec(self).map_err(e),
             Codec::Json | Codec::JsonReader | Codec::JsonValue => json_enc(c, self),
-                    Codec::TreeBin | Codec::TreeBinLend | Codec::TreeHr | Codec::TreeBinMap => tree_enc(c, self),
+                    Codec::TreeBin | Codec::TreeBinLend | Codec::TreeHr | Codec::TreeBinMap | Codec::TreeBinHint | Codec::TreeBinPacked => tree_enc(c, self),
             Codec::Be => Ok(self.to_be_bytes()),
             Codec::Le => Ok(self.to_le_bytes()),
         }
@@ -280,7 +280,7 @@ impl Wire for SignatureSchemes {
             },
             Codec::Bare => serde_bare::from_slice(b).map_err(e),
             Codec::Json | Codec::JsonReader | Codec::JsonValue => json_dec(c, b),
-                    Codec::TreeBin | Codec::TreeBinLend | Codec::TreeHr | Codec::TreeBinMap => tree_dec(c, b),
+                    Codec::TreeBin | Codec::TreeBinLend | Codec::TreeHr | Codec::TreeBinMap | Codec::TreeBinHint | Codec::TreeBinPacked => tree_dec(c, b),
             _ => Err("facade: codec not offered by this type".into()),
         }
     }
@@ -289,7 +289,7 @@ impl Wire for SignatureSchemes {
             Codec::Bytes => Ok(vec![*self as u8]),
             Codec::Bare => serde_bare::to_vec(self).map_err(e),
             Codec::Json | Codec::JsonReader | Codec::JsonValue => json_enc(c, self),
-                    Codec::TreeBin | Codec::TreeBinLend | Codec::TreeHr | Codec::TreeBinMap => tree_enc(c, self),
+                    Codec::TreeBin | Codec::TreeBinLend | Codec::TreeHr | Codec::TreeBinMap | Codec::TreeBinHint | Codec::TreeBinPacked => tree_enc(c, self),
             _ => Err("facade: codec not offered by this type".into()),
         }
     }
@@ -310,7 +310,7 @@ impl Wire for Bls12381 {
             },
             Codec::Bare => serde_bare::from_slice(b).map_err(e),
             Codec::Json | Codec::JsonReader | Codec::JsonValue => json_dec(c, b),
-                    Codec::TreeBin | Codec::TreeBinLend | Codec::TreeHr | Codec::TreeBinMap => tree_dec(c, b),
+                    Codec::TreeBin | Codec::TreeBinLend | Codec::TreeHr | Codec::TreeBinMap | Codec::TreeBinHint | Codec::TreeBinPacked => tree_dec(c, b),
             _ => Err("facade: codec not offered by this type".into()),
         }
     }
@@ -319,7 +319,7 @@ impl Wire for Bls12381 {
             Codec::Bytes => Ok(vec![u8::from(self)]),
             Codec::Bare => serde_bare::to_vec(self).map_err(e),
             Codec::Json | Codec::JsonReader | Codec::JsonValue => json_enc(c, self),
-                    Codec::TreeBin | Codec::TreeBinLend | Codec::TreeHr | Codec::TreeBinMap => tree_enc(c, self),
+                    Codec::TreeBin | Codec::TreeBinLend | Codec::TreeHr | Codec::TreeBinMap | Codec::TreeBinHint | Codec::TreeBinPacked => tree_enc(c, self),
             _ => Err("facade: codec not offered by this type".into()),
         }
     }
@@ -1174,6 +1174,135 @@ fn dispatch<C: CI>(op: Op, a: &[&[u8]]) -> R<Vec<Vec<u8>>> {
             let half = pairs.len() / 2;
             let split = <C as Pairing>::pairing(&pairs[..half]) + <C as Pairing>::pairing(&pairs[half..]);
             Ok(vec![flag(all.is_identity().into()), flag(split == all)])
+        }
+        Op::EncodeInterrupted => {
+            // the CALLER's side of an encoding call fails part-way (the sink, not the value)
+            struct Failing(usize);
+            impl std::io::Write for Failing {
+                fn write(&mut self, b: &[u8]) -> std::io::Result<usize> {
+                    if self.0 == 0 {
+                        return Err(std::io::Error::new(std::io::ErrorKind::Other, "sink full"));
+                    }
+                    let n = b.len().min(self.0);
+                    self.0 -= n;
+                    Ok(n)
+                }
+                fn flush(&mut self) -> std::io::Result<()> {
+                    Ok(())
+                }
+            }
+            fn interrupted<T: Wire + serde::Serialize>(ci: Codec, b: &[u8], k: usize) -> R<Vec<Vec<u8>>> {
+                let v = T::dec(ci, b)?;
+                let failed = serde_json::to_writer(Failing(k), &v).is_err();
+                Ok(vec![flag(failed)])
+            }
+            let ty = Ty::from_u8(*arg(a, 0)?.first().ok_or("ty")?).ok_or("ty")?;
+            let ci = Codec::from_u8(*arg(a, 1)?.first().ok_or("codec")?).ok_or("codec")?;
+            let k = u64_of(arg(a, 3)?)? as usize;
+            with_ty!(ty, C, interrupted(ci, arg(a, 2)?, k))
+        }
+        Op::PokCommitNestedAsRef => {
+            struct Nested<'a, C: CI> {
+                msg: &'a [u8],
+                sig: Signature<C>,
+                inner: std::cell::RefCell<Option<(Vec<u8>, Vec<u8>)>>,
+            }
+            impl<'a, C: CI> AsRef<[u8]> for Nested<'a, C> {
+                fn as_ref(&self) -> &[u8] {
+                    if self.inner.borrow().is_none() {
+                        if let Ok((c, x)) = ProofCommitment::<C>::generate(self.msg, self.sig) {
+                            *self.inner.borrow_mut() = Some((Vec::from(&c), Vec::from(&x)));
+                        }
+                    }
+                    self.msg
+                }
+            }
+            let sig = Signature::<C>::try_from(arg(a, 1)?).map_err(e)?;
+            let m = Nested::<C> { msg: arg(a, 0)?, sig, inner: std::cell::RefCell::new(None) };
+            let (c, x) = ProofCommitment::<C>::generate(&m, sig).map_err(e)?;
+            let (ic, ix) = m.inner.borrow().clone().ok_or("the message value was never read")?;
+            Ok(vec![Vec::from(&c), Vec::from(&x), ic, ix])
+        }
+        Op::AggVerifyCallerPanics => {
+            let agg = AggregateSignature::<C>::try_from(arg(a, 0)?).map_err(e)?;
+            let k = u64_of(arg(a, 1)?)? as usize;
+            let how = *arg(a, 2)?.first().ok_or("how")?;
+            let mut data: Vec<(PublicKey<C>, Vec<u8>)> = Vec::new();
+            let mut i = 3;
+            while i + 1 < a.len() {
+                data.push((PublicKey::<C>::try_from(a[i]).map_err(e)?, a[i + 1].to_vec()));
+                i += 2;
+            }
+            struct Bomb(Vec<u8>, bool);
+            impl AsRef<[u8]> for Bomb {
+                fn as_ref(&self) -> &[u8] {
+                    if self.1 {
+                        panic!("caller: message source failed");
+                    }
+                    &self.0
+                }
+            }
+            // the caller's own unwinding is the caller's business: caught here, reported as an ordinary refusal
+            let r = catch_unwind(AssertUnwindSafe(|| {
+                if how == 0 {
+                    let it = data.iter().enumerate().map(|(i, (pk, m))| {
+                        if i == k {
+                            panic!("caller: entry source failed");
+                        }
+                        (pk.0, m.clone())
+                    });
+                    match agg {
+                        AggregateSignature::Basic(s) => <C as BlsSignatureBasic>::aggregate_verify(it, s),
+                        AggregateSignature::MessageAugmentation(s) => <C as BlsSignatureMessageAugmentation>::aggregate_verify(it, s),
+                        AggregateSignature::ProofOfPossession(s) => <C as BlsSignaturePop>::aggregate_verify(it, s),
+                    }
+                } else {
+                    let list: Vec<(PublicKey<C>, Bomb)> = data.iter().enumerate().map(|(i, (pk, m))| (*pk, Bomb(m.clone(), i == k))).collect();
+                    agg.verify(&list)
+                }
+            }));
+            simtypes::take_panic();
+            match r {
+                Err(_) => Err("caller panicked inside the call and caught it".into()),
+                Ok(v) => Err(format!("no entry {}: {:?}", k, v.is_ok())),
+            }
+        }
+        Op::SplitFaultyRng => {
+            struct Faulty {
+                inner: ChaCha20Rng,
+                n: u64,
+                at: u64,
+                fill: u8,
+            }
+            impl rand_core::RngCore for Faulty {
+                fn next_u32(&mut self) -> u32 {
+                    let mut b = [0u8; 4];
+                    self.fill_bytes(&mut b);
+                    u32::from_le_bytes(b)
+                }
+                fn next_u64(&mut self) -> u64 {
+                    let mut b = [0u8; 8];
+                    self.fill_bytes(&mut b);
+                    u64::from_le_bytes(b)
+                }
+                fn fill_bytes(&mut self, dest: &mut [u8]) {
+                    let hit = self.n == self.at;
+                    self.n += 1;
+                    self.inner.fill_bytes(dest);
+                    if hit {
+                        dest.iter_mut().for_each(|b| *b = self.fill);
+                    }
+                }
+                fn try_fill_bytes(&mut self, dest: &mut [u8]) -> Result<(), rand_core::Error> {
+                    self.fill_bytes(dest);
+                    Ok(())
+                }
+            }
+            impl rand_core::CryptoRng for Faulty {}
+            let sk = sk_lenient::<C>(arg(a, 0)?)?;
+            let rng = Faulty { inner: ChaCha20Rng::from_seed(seed32(arg(a, 3)?)?), n: 0, at: u64_of(arg(a, 4)?)?, fill: *arg(a, 5)?.first().ok_or("fill")? };
+            let shares = sk.split_with_rng(u64_of(arg(a, 1)?)? as usize, u64_of(arg(a, 2)?)? as usize, rng).map_err(e)?;
+            Ok(shares.iter().map(Vec::from).collect())
         }
         Op::MultiSigVerifyKeys => {
             let ms = MultiSignature::<C>::try_from(arg(a, 0)?).map_err(e)?;
